@@ -149,7 +149,11 @@ func evalC05(c c05Case) (f *Failure, nontrivial bool) {
 		diag := map[string]int{}
 		watch := func(m *sio.Manager, k int) {
 			m.OnError(func(err error) { mu.Lock(); diag[fmt.Sprintf("mgr%d-error:%v", k, err)]++; mu.Unlock() })
-			m.OnClose(func(reason sio.Reason, err error) { mu.Lock(); diag[fmt.Sprintf("mgr%d-close:%s:%v", k, reason, err)]++; mu.Unlock() })
+			m.OnClose(func(reason sio.Reason, err error) {
+				mu.Lock()
+				diag[fmt.Sprintf("mgr%d-close:%s:%v", k, reason, err)]++
+				mu.Unlock()
+			})
 			m.OnOpen(func() { mu.Lock(); diag[fmt.Sprintf("mgr%d-open", k)]++; mu.Unlock() })
 		}
 		m0 := r.manager(c01Transports(c.Transport), nil)
@@ -225,6 +229,7 @@ func evalC05(c c05Case) (f *Failure, nontrivial bool) {
 		}
 		disconnected := map[key]bool{}
 		rejoined := false
+		volatileOffline := false
 		seq := 0
 		expect := map[string]int{} // token@receiver -> expected count
 		for _, op := range c.Ops {
@@ -253,6 +258,16 @@ func evalC05(c c05Case) (f *Failure, nontrivial bool) {
 				}
 				delete(disconnected, k)
 				rejoined = true
+				continue
+			}
+			if op.Op == "volatile-offline" {
+				// a volatile emit on a socket that is not attached (it left, or its namespace refused it) is simply discarded: it must not put
+				// anything on the connection the socket shares with its siblings
+				if cs != nil && (disconnected[k] || norm == rejected) {
+					cs.s.Volatile().Emit("ev", fmt.Sprintf("%s|%d|volatile-offline", norm, op.Mgr))
+					volatileOffline = true
+					settle(20 * time.Millisecond)
+				}
 				continue
 			}
 			if norm == rejected || cs == nil || disconnected[k] {
@@ -296,7 +311,7 @@ func evalC05(c c05Case) (f *Failure, nontrivial bool) {
 				settle(10 * time.Millisecond)
 			}
 		}
-		nontrivial = nontrivial || rejoined
+		nontrivial = nontrivial || rejoined || volatileOffline
 		settle(2 * time.Second)
 		// after disconnecting some namespaces every other namespace of those connections still completes an ack round trip
 		final := map[key]bool{}
@@ -394,7 +409,7 @@ func genC05Case(t *rapid.T) c05Case {
 		}
 	}
 	for i, k := 0, rapid.IntRange(2, 20).Draw(t, "ops"); i < k; i++ {
-		op := c05Op{Op: rapid.SampledFrom([]string{"c2s", "s2c", "ack", "nspbc", "roombc", "c2s", "s2c", "disconnect", "reconnect"}).Draw(t, "op"), Nsp: rapid.IntRange(0, n-1).Draw(t, "nsp"),
+		op := c05Op{Op: rapid.SampledFrom([]string{"c2s", "s2c", "ack", "nspbc", "roombc", "c2s", "s2c", "disconnect", "reconnect", "volatile-offline"}).Draw(t, "op"), Nsp: rapid.IntRange(0, n-1).Draw(t, "nsp"),
 			Mgr: rapid.IntRange(0, 1).Draw(t, "mgr")}
 		c.Ops = append(c.Ops, op)
 	}
@@ -406,7 +421,7 @@ func TestC05_Isolation(t *testing.T) {
 	defer startWatchdog(t, 60*time.Second)()
 	ev := NewEv(t, "C05", c05Check, "rapid on the virtual-time rig: 2..5 namespaces drawn from look-alikes (/, '', /a, a, /ab, /a/b, '/a b', /ä, /0, /12, /a\", /A, /a-, /1-2), one manager with a socket per "+
 		"namespace (shared connection) plus a second manager on a subset, per-namespace middleware delays (CONNECT replies in any order) with a broadcast issued in every namespace while the slow ones are still deciding, optionally one rejecting namespace; 2..20 operations: emits both "+
-		"ways, ack round trips, namespace and room broadcasts (same room name everywhere), client-side disconnect of one namespace and joining it again later on the same connection; every token names its namespace and connection; oracle: a handler of "+
+		"ways, ack round trips, namespace and room broadcasts (same room name everywhere), client-side disconnect of one namespace and joining it again later on the same connection, volatile emits on a socket that is not attached; every token names its namespace and connection; oracle: a handler of "+
 		"(X, k) only ever sees tokens of X/k, deliveries == expectations exactly, acks return to the emitter, a rejected namespace yields connect_error once and never connects, after the disconnects every "+
 		"other namespace of the connection still completes an ack round trip; non-trivial = >= 2 namespaces on one connection with one a prefix of another")
 	rapidGuard(t, "C05", c05Check)
@@ -453,7 +468,11 @@ func evalC05Raw(c c05RawCase) *Failure {
 				}
 				s.OnEvent("ev", func(x string) { mu.Lock(); dispatched = append(dispatched, name+":ev:"+x); mu.Unlock() })
 				s.OnEvent("rt", func(x string, ack func(string)) { ack(x) })
-				s.OnDisconnect(func(reason sio.Reason) { mu.Lock(); dispatched = append(dispatched, name+":disconnect:"+string(reason)); mu.Unlock() })
+				s.OnDisconnect(func(reason sio.Reason) {
+					mu.Lock()
+					dispatched = append(dispatched, name+":disconnect:"+string(reason))
+					mu.Unlock()
+				})
 				return nil
 			})
 			nsp.OnConnection(func(s sio.ServerSocket) { mu.Lock(); connections[name]++; mu.Unlock() })
